@@ -116,6 +116,22 @@ def _misc(args):
         herm = t % 3 == 0
         if herm:
             A = A + oherm(A)
+        if t % 7 == 5:
+            # breakdown inputs: an iterate is annihilated exactly (zero matrix, strictly triangular = nilpotent, [[0, B], [0, 0]])
+            herm = False
+            kind_ = (t // 7) % 3
+            if kind_ == 0:
+                A = np.zeros((n, n, 4))
+                herm = True
+            elif kind_ == 1:
+                A = np.triu(A.transpose(2, 0, 1), 1).transpose(1, 2, 0).copy()
+                herm = n == 1
+            else:
+                n = max(n, 2)
+                h_ = n // 2
+                B_ = rng.standard_normal((n, n, 4))
+                A = np.zeros((n, n, 4))
+                A[:h_, h_:] = B_[:h_, h_:]
         s2 = float(osvals(A)[0])
         np.random.seed(seed + t)
         with contextlib.redirect_stdout(io.StringIO()):
